@@ -351,7 +351,9 @@ CHECKS["C10"] = dict(
           "grids, start state and program of ANY length over the property's operation list (18 op constructors incl. uxarray's isel on grid "
           "dims, integrate, gradient, difference, topological aggregation, remap, get_dual), every in-scope operation built through a "
           "re-attaching path keeps 'UxDataArray and live grid attached and every node/edge/face dimension has that grid's element count'; "
-          "same_grid (same grid OBJECT for all but deep copy/grid-isel/remap/get_dual), deep_copy_independent, model_meets_spec + specB_iff (the "
+          "same_grid (same grid OBJECT for all but deep copy/grid-isel/remap/get_dual), isel_commutes_with_transpose (grid-dimension isel / subset "
+          "are by NAME for every layout of the element dimension; Spec clause grid_isel_by_name + a by-name value oracle judge transpose/"
+          "expand_dims -> isel compositions), deep_copy_independent, model_meets_spec + specB_iff (the "
           "decidable step spec is what the driver evaluates on the implementation's result after EVERY prefix). The full statement is false "
           "for the code as it stands and is kept as program_inv_asis_partial with Lean counterexamples asis_* (where/clip/fillna/astype/NumPy "
           "ufuncs/rolling -> plain DataArray; positional indexing of a grid dimension keeps the un-sliced grid; get_dual on meshes with nodes of "
